@@ -863,7 +863,9 @@ pub fn run(args: &Args) -> i32 {
             // also as two files: cut in the middle
             let half = m.defs.len() / 2;
             let two = vec![ts_text(&TsDoc { defs: m.defs[..half].to_vec() }), ts_text(&TsDoc { defs: m.defs[half..].to_vec() })];
-            for files in [vec![text.clone()], two] {
+            // and with every definition in a file of its own (each then starts at line 0, column 0 of its file)
+            let each: Vec<String> = m.defs.iter().map(|d| ts_text(&TsDoc { defs: vec![d.clone()] })).collect();
+            for files in [vec![text.clone()], two, each] {
                 evals.fetch_add(1, Ordering::Relaxed);
                 let case_json = || json!({"direction": "invalid", "rule": label, "site": site, "files": files, "reference_findings": findings.iter().map(|f| format!("{}: {}", f.rule, f.detail)).collect::<Vec<_>>()});
                 cli_jobs.push((label, site.clone(), files.clone()));
@@ -915,10 +917,10 @@ pub fn run(args: &Args) -> i32 {
         "traces_validated_against_impl": n,
         "evaluations": n,
         "distinct_nontrivial": valid_checked.load(Ordering::Relaxed) + confirmed,
-        "rule": "valid direction: E1 variations of the base schema confirmed valid by R-VALID-TS (others are dropped and counted); invalid direction: every single-fault mutant at every applicable site, confirmed by R-VALID-TS for its rule, as one file and as two files; non-trivial = confirmed valid schemas + confirmed mutants",
+        "rule": "valid direction: E1 variations of the base schema confirmed valid by R-VALID-TS (others are dropped and counted); invalid direction: every single-fault mutant at every applicable site, confirmed by R-VALID-TS for its rule, as one file, as two files and with every definition in a file of its own; non-trivial = confirmed valid schemas + confirmed mutants",
         "exhaustive": true,
         "valid_direction": {"explorer": stats_json(&stats), "confirmed_valid_and_checked": valid_checked.load(Ordering::Relaxed), "generated_but_invalid_per_reference": gen_invalid.load(Ordering::Relaxed), "dropped_by_rule": *gen_invalid_rules.lock().unwrap()},
-        "through_the_cli": {"runs_of_nitrogql_cli_check": cli_runs.load(Ordering::Relaxed), "valid_direction_up_to_deviations": cli_dev, "invalid_direction": "every confirmed mutant, as one file and as two"},
+        "through_the_cli": {"runs_of_nitrogql_cli_check": cli_runs.load(Ordering::Relaxed), "valid_direction_up_to_deviations": cli_dev, "invalid_direction": "every confirmed mutant, as one file, as two, and with every definition in a file of its own"},
         "invalid_direction": {"bases": bases.len(), "mutants": mut_total, "confirmed_and_demanded": confirmed, "per_rule": per_rule},
         "samples": [
             {"valid": ts_text(&gen_valid(&mut Chooser::new(&crate::explore::Dev::default())).files[0])[..400.min(ts_text(&base()).len())].to_string()},
